@@ -953,6 +953,71 @@ def w1_time_window_law(F, r):
     r.ok("evaluate_activity: comparisons", f"{len(kinds)} distinct comparisons evaluated: " + ", ".join(sorted(f"{a}~{b}".replace("actx.", "") for a, b in kinds))[:300])
 
 
+HDV = "vrp_core::construction::features::capacity::has_demand_violation"
+# which cached load summary each part of a demand is added to (confirmed by reading; from the definition of the summaries)
+HDV_PAIRS = {"delivery": {"get_max_past_capacity_at"}, "pickup": {"get_max_future_capacity_at"}, "change": {"get_max_future_capacity_at", "get_current_capacity_at"}}
+
+
+def c1_capacity_law(F, r):
+    """capacity: a violation is reported iff some (cached load summary + demand part) does not fit; static delivery is tested against the max PAST load, static pickup
+    against the max FUTURE load, the dynamic change against FUTURE and CURRENT; only the static-delivery test may abort the scan (it gets worse further right)"""
+    from .. import ordeval as oe
+    if HDV not in F.fns:
+        raise AnchorError(HDV)
+    fn = F.fns[HDV]
+    sites = {}
+    for bi, t in mir.calls(fn):
+        if not t["callee"].endswith("::can_fit"):
+            continue
+        an, ac = _roles(F, fn, t["args"][1])
+        toks = _toks(fn, t["args"][1])
+        part = [k for k in HDV_PAIRS if any(k in str(x) for x in toks)]
+        summ = {x for x in toks if x.startswith("get_") and x.endswith("_at")}
+        sites[t["ln"]] = (part, summ)
+        inst = f"has_demand_violation: can_fit#{len(sites)}"
+        if len(part) != 1:
+            r.fail(inst, f"cannot tell which demand part is tested (tokens {sorted(toks)[:6]})", F.loc(HDV, t["ln"]))
+        elif not summ or not summ <= HDV_PAIRS[part[0]]:
+            r.fail(inst, f"the {part[0]} part of the demand is added to {sorted(summ) or 'no cached summary'}; it must be tested against {sorted(HDV_PAIRS[part[0]])} "
+                   "(static deliveries load the vehicle from the start, static pickups stay until the end)", F.loc(HDV, t["ln"]))
+        else:
+            r.ok(inst, f"{part[0]} + {sorted(summ)[0]}")
+    covered = {}
+    for part, summ in sites.values():
+        if len(part) == 1:
+            covered.setdefault(part[0], set()).update(summ)
+    for k, need in HDV_PAIRS.items():
+        if covered.get(k, set()) != need:
+            r.fail(f"has_demand_violation: {k}", f"the {k} part is tested against {sorted(covered.get(k, set()))}, expected {sorted(need)}", F.loc(HDV))
+    stopped = [int(k) for k, v in fn["names"].items() if v == "stopped" and int(k) <= fn["argc"]]
+    it = oe.Interp(F, HDV, {1: oe.ref(oe.sym("route_ctx")), 2: oe.sym("pivot"), 3: oe.some(oe.ref(oe.sym("demand"))), (stopped[0] if stopped else 4): oe.sym("stopped")},
+                   fresh=True, enum_results=True, max_steps=3000, call_models={"::get_vehicle_capacity": lambda i_, a, h, rl: oe.some(oe.ref(oe.sym("capacity")))})
+    try:
+        paths = it.explore(max_paths=5000)
+    except oe.Undecided as e:
+        r.fail("has_demand_violation: verdicts", f"not evaluable: {e}", F.loc(HDV))
+        return
+    bad = {}
+    for p in paths:
+        fits = [(a[4], a[2]) for a in p.assumptions if a[0] == "callret" and a[3] and a[3].endswith("::can_fit")]
+        viol = [ln for ln, ok in fits if not ok]
+        if p.ret == oe.NONE and viol:
+            bad["admitted"] = "the insertion is admitted although a load summary + demand does not fit the capacity"
+        elif p.ret != oe.NONE and not viol:
+            bad["rejected"] = "a violation is reported although every tested load fits"
+        elif p.ret != oe.NONE and viol:
+            part = sites.get(viol[-1], ([], set()))[0]
+            v = p.ret[1] if p.ret and p.ret[0] == "some" else None
+            if v == oe.sym("stopped") and part != ["delivery"]:
+                bad["abort"] = f"the scan-aborting verdict (`stopped`) is returned for the {part} test: only a static delivery that does not fit rules out all later positions"
+            elif v not in (oe.sym("stopped"), ("bool", False)):
+                bad["verdict"] = f"unexpected verdict {p.ret}"
+    for k, msg in sorted(bad.items()):
+        r.fail(f"has_demand_violation: {k}", msg, F.loc(HDV))
+    if not bad:
+        r.ok("has_demand_violation: verdicts", f"{len(paths)} combinations of empty/non-empty parts and fit results: violation iff some tested load does not fit; abort only for static delivery")
+
+
 CAP_NAMES = ("capacity", "available", "resource_available", "resources", "resource_capacity")
 
 
@@ -1355,6 +1420,7 @@ def run(ctx):
     ctx.run("C01-Q1", "no comparison in constraint code relates a value to itself (a constant guard)", q1_no_self_comparison, floor=1)
     from .common import operator_agreement
     ctx.run("C01-O2", "load / cost / statistic operators: every impl Add/Sub/Mul computes with its own operator family", operator_agreement, floor=8)
+    ctx.run("C01-C1", "capacity: demand parts tested against their own load summaries; violation iff some load does not fit; abort only for static delivery", c1_capacity_law, floor=5)
     ctx.run("C01-W1", "time windows: admitted iff no arrival after its latest time and the shift covers the windows; fail only on target-independent facts (finite evaluation)", w1_time_window_law, floor=2)
     ctx.run("C01-N1", "reachability: rejected iff a new leg has a negative distance (finite evaluation over <0, =0, >0 of both legs)", n1_reachable_law, floor=6)
     ctx.run("C01-M1", "tour limits: violation iff total + change > limit; each limit compared with its own total / change component / code", m1_limit_laws, floor=3)
